@@ -19,6 +19,8 @@ Families (field fam)
   deep    : every nesting constructor at depths 1..8 on a document nested to match (C01)
   keyword : field names spelled true / false / null / and / or / not / in, in every operand position (C01, C03)
   litop   : every postfix operator, comparison and call applied directly to a literal operand (C01, C03, C07)
+  mapnull / nested / twins / twoslice / cmpchain / absent / litpost / notgroup / selfnest / keyorder / msidx / foldlit / digitkeys :
+            round 6 (see the comments at each block below)
   alias   : the same document node reached twice (both operands of a comparison, two arguments of a call) (C01, C10, C06)
 """
 import itertools, json, os, sys
@@ -38,8 +40,20 @@ def doc_index(d):
     return len(docs)
 
 
-def add(fam, text, d):
-    cases.append({"e": "eval", "fam": fam, "text": cps(text), "d": doc_index(d)})
+def add(fam, text, d, span=None):
+    c = {"e": "eval", "fam": fam, "text": cps(text), "d": doc_index(d)}
+    if span:
+        c["span"] = list(span)          # [lo, hi): character offsets of the sub-expression whose failure is the one to be reported
+    cases.append(c)
+
+
+def add2(fam, template, x, y, d, failing):
+    """template with two %s; `failing` says which of x / y fail: the span of the FIRST failing one (in written = evaluation order) goes along"""
+    i = template.index("%s")
+    j = template.index("%s", i + 2) - 2 + len(x)
+    text = template % (x, y)
+    span = (i, i + len(x)) if failing[0] else ((j, j + len(y)) if failing[1] else None)
+    add(fam, text, d, span)
 
 
 # ---------------------------------------------------------------- confuse
@@ -189,13 +203,17 @@ fails = ["abs(s)", "abs()", "nosuch(n)", "a[::0]", "length(n)", "keys(a)", "sum(
 oks = ["n", "z", "t", "f", "s", "a", "abs(n)"]
 ctx = ["%s || %s", "%s && %s", "%s == %s", "%s | %s", "[%s, %s]", "{x: %s, y: %s}", "not_null(%s, %s)", "%s < %s", "a[?%s].x || %s", "!%s || %s",
        "nosuch(%s, %s)", "abs(%s, %s)", "contains(%s, %s)", "a[*].[%s, %s]", "map(&%s, a) || %s", "sort_by(a, &%s) || %s", "(%s).x || %s", "%s.x.y && %s"]
+SHORT = ("%s || %s", "%s && %s", "!%s || %s", "a[?%s].x || %s", "%s.x.y && %s", "(%s).x || %s", "map(&%s, a) || %s", "sort_by(a, &%s) || %s")   # the right side may not run at all
 for c in ctx:
     for x, y in itertools.product(fails[:6], fails[:6]):
-        add("errpair", c % (x, y), edoc)
+        add2("errpair", c, x, y, edoc, (True, True))
     for x in fails:
         for y in oks:
-            add("errpair", c % (x, y), edoc)
-            add("errpair", c % (y, x), edoc)
+            add2("errpair", c, x, y, edoc, (True, False))
+            if c in SHORT or c.startswith("a[*]"):      # (inside a projection the 'succeeding' partner is evaluated on the elements, where it may fail)
+                add("errpair", c % (y, x), edoc)
+            else:
+                add2("errpair", c, y, x, edoc, (False, True))
 
 # ---------------------------------------------------------------- deep
 # every nesting constructor at depths 1..8 with a document nested to match: the value, not only termination
@@ -237,6 +255,189 @@ for l in lits:
     for t in ["length(%s)", "type(%s)", "to_string(%s)", "to_array(%s)[-1]", "not_null(%s)", "!%s", "%s == %s", "[%s][0]", "{k: %s}.k", "a || %s", "reverse(%s)", "keys(%s)", "abs(%s)",
               "foo[?@ == %s[-1]]", "max(%s)", "sort(%s)[-1]", "%s | @[-1]", "contains(%s, `1`)", "join(',', %s)"]:
         add("litop", t.replace("%s", l), {"a": 1, "foo": [30, 4, [3, 4], "c"]})
+
+
+# ================================================================ round 6 families
+OPS = ["==", "!=", "<", "<=", ">", ">="]
+# ---------------------------------------------------------------- mapnull
+# expression references whose body does not read its input (literals, multi-selects of literals) or reads it trivially, applied by map /
+# projections / by-functions over arrays with null and non-null elements at every position: a multi-select on null IS null, a literal is not
+mdocs = [[1, None, 2], [None, 7], [None], [{"k": 1}, None, "x"], [None, True, None], [[1], None, {"k": None}], [], [0, "", None, [], {}]]
+bodies = ["`1`", "[`1`]", "{k: `1`}", "[`3`, `4`][1]", "{k: `\"v\"`, n: length(`\"ab\"`)}", "[`1`, @]", "@", "k", "[k]", "{x: k}", "[@]", "`null`", "'s'", "[`1`][0]", "[]", "*",
+          "[*]", "!@", "@ == `null`", "type(@)", "not_null(@, `0`)", "[`1`] | [0]", "`[1]`[0]", "[`1`][*]", "{k: `1`}.k", "[`1`] || `2`", "`1` && [`1`]", "(@ || `1`) && [`2`]"]
+for d in mdocs:
+    for b in bodies:
+        add("mapnull", "map(&%s, @)" % b, d)
+        # (a multi-select list after a dot that is stepped into again is known finding F15's form: through map only)
+        add("mapnull", "[*].%s" % b if not b.startswith(("`", "'", "!", "@", "(")) and "][" not in b else "[*] | map(&%s, @)" % b, d)
+    for b in ["`1`", "'s'", "[`1`][0]", "{k: `1`}.k", "[`1`]", "`null`", "length([`1`, @])", "type(@)", "@ == `null` && `0` || `1`"]:
+        for f in ("sort_by", "max_by", "min_by"):
+            add("mapnull", "%s(@, &%s)" % (f, b), d)
+# ---------------------------------------------------------------- nested
+# shallow versus deep: every container built-in and flatten on values whose members are containers themselves (merge replaces, flatten
+# removes ONE level and drops empty nested lists, contains / == compare deeply)
+ndoc = {"a": {"k": {"x": 1}}, "b": {"k": {"y": 2}}, "c": {"k": {}}, "d": {"k": [1]}, "e": {"k": None, "j": {"x": {"y": 1}}}, "l": [[1, [2]], [3], [], [[]]],
+        "m": [[], 1, []], "n": [[], []], "o": [[[]], "x"], "rows": [{"id": 1, "tags": []}, {"id": 2, "tags": []}, {"id": 3}], "p": [[1, 2], [1, 2]],
+        "q": [{"k": [1]}, {"k": [1]}], "g": [{"m": [{"k": 1}]}, {"m": [{"k": 2}]}], "w": {"p": {"q": {"r": 1, "s": 2}}, "t": 0}, "u": {"t": 1}, "v": {"p": {"q": {"s": 3}}}}
+ntexts = ["merge(a, b)", "merge(b, a)", "merge(a, b, c)", "merge(a, c)", "merge(c, a)", "merge(a, d)", "merge(d, a)", "merge(a, e)", "merge(e, a)", "merge(a, b).k", "merge(a, b, a)",
+          "values(merge(a, b))", "keys(merge(a, b).k)", "merge(w, u, v)", "merge(v, u, w)", "merge(w, v).p.q", "keys(merge(w, v).p.q)", "merge(e, e.j)", "merge(a, a.k, b.k)",
+          "l[]", "l[][]", "l[][][]", "m[]", "n[]", "o[]", "o[][]", "rows[*].tags[]", "rows[*].tags[] || 'none'", "!(rows[*].tags[])", "rows[*].tags", "rows[].tags[]", "g[].m[?k == `3`][]",
+          "g[].m[?k == `1`][]", "contains(l, `[3]`)", "contains(l, `[]`)", "contains(l, `[[]]`)", "contains(p, `[1, 2]`)", "contains(p, `[2, 1]`)", "reverse(l)", "to_array(l)", "to_array(a)",
+          "length(l)", "length(a)", "not_null(c.z, l)", "l == l", "p[0] == p[1]", "q[0] == q[1]", "values(a)", "values(e)", "keys(e)", "max_by(q, &k[0])", "map(&k, q)", "l[*][]", "l[*][0]",
+          "[l, m][]", "[l, m][][]", "type(l[0])", "[m, n][*][]", "m[] | length(@)", "n[] == `[]`", "[n][]", "[n][][]", "[[n]][][][]", "{x: n}.x[]", "n[*]", "m[?@ == `[]`]", "m[?@ == `[]`][]",
+          "sort_by(q, &k[0])", "to_string(n)", "to_string(merge(a, b))", "a == b", "a.k == b.k", "merge(a, b) == b", "merge(`{}`, a) == a"]
+for t in ntexts:
+    add("nested", t, ndoc)
+# ---------------------------------------------------------------- twins
+# the same text between different delimiters in ONE expression: a raw string 'T', a JSON literal `T`, a quoted identifier "T" are three
+# different things, in either order
+for T in ["1", "null", "true", "0.5", "[1, 2]", "{}", '"a"', '""', "-1"]:
+    raw, lit = "'%s'" % T, "`%s`" % T
+    simple = '"' not in T
+    qid = '"%s"' % T if simple else None
+    tdoc = {T: "field"} if simple else {"k": 1}
+    forms = ["[%s, %s]" % (raw, lit), "[%s, %s]" % (lit, raw), "%s == %s" % (raw, lit), "%s == %s" % (lit, raw), "{a: %s, b: %s}" % (raw, lit), "{a: %s, b: %s}" % (lit, raw),
+             "[%s, %s, %s]" % (raw, raw, lit), "[%s, %s, %s]" % (lit, raw, lit), "contains([%s], %s)" % (raw, lit), "[type(%s), type(%s)]" % (raw, lit), "%s | [@, %s]" % (raw, lit),
+             "[%s][?@ == %s]" % (lit, raw), "[%s, %s] | [1]" % (raw, lit), "[%s, %s] | [1]" % (lit, raw)]
+    if qid:
+        forms += ["[%s, %s, %s]" % (qid, raw, lit), "[%s, %s, %s]" % (lit, raw, qid), "[%s, %s]" % (raw, qid), "{a: %s, b: %s, c: %s}" % (raw, qid, lit), "%s == %s" % (qid, raw)]
+    for t in forms:
+        add("twins", t, tdoc)
+# ---------------------------------------------------------------- twoslice
+# two or three slices in one expression with every combination of explicit / omitted parts (nothing of one slice belongs to another), and
+# slices with an omitted start directly behind every kind of projection
+sdoc = {"foo": list(range(10)), "rows": [[1, 2, 3], [4, 5], [6, 7, 8, 9]], "recs": [{"k": 1, "v": [1, 2]}, {"v": [3]}, {"k": 2, "v": [4, 5, 6]}], "obj": {"a": [1, 2, 3], "b": [4]}}
+S1 = ["[::-1]", "[::2]", "[::3]", "[1::2]", "[:5:2]", "[::-2]", "[8:2:-3]", "[2:8:1]", "[:4]"]
+S2 = ["[:3]", "[1:3]", "[:]", "[1:]", "[::]", "[2:]", "[:-1]", "[-2:]", "[0:2:]", "[::1]"]
+for a, b in itertools.product(S1, S2):
+    for sh in ["foo%s | @%s", "foo%s%s", "{a: foo%s, b: foo%s}", "[foo%s, foo%s]", "foo%s | @%s | @[::-1]"]:
+        add("twoslice", sh % (a, b), sdoc)
+        add("twoslice", sh % (b, a), sdoc)
+for P in ["rows[*]", "rows[]", "rows[1:]", "recs[?k].v", "obj.*", "[rows, rows][]", "rows[*][*]", "rows[::-1]", "recs[*].v", "rows[?@[2]]"]:
+    for S in ["[:2]", "[::-1]", "[:1]", "[::]", "[:]", "[:-1]", "[::2]", "[0:2]", "[-2:]", "[1::2]", "[:2][:1]", "[::-1][:1]", "[:1][0]", "[::0]"]:
+        add("twoslice", P + S, sdoc)
+# ---------------------------------------------------------------- cmpchain
+# two comparators side by side without parentheses: all six have ONE binding power and associate to the left
+cdoc3 = {"t": True, "one": 1, "two": 2, "f": False, "n": None, "s": "a", "rows": [{"a": True, "b": 1, "c": 2}, {"a": 1, "b": 1, "c": True}, {"a": False, "b": 2, "c": 1}]}
+for o1, o2 in itertools.product(OPS, OPS):
+    for x, y, z in [("t", "one", "two"), ("one", "one", "two"), ("`1`", "`1`", "`2`"), ("two", "one", "t"), ("one", "two", "two"), ("n", "one", "n"), ("f", "two", "one")]:
+        add("cmpchain", "%s %s %s %s %s" % (x, o1, y, o2, z), cdoc3)
+    add("cmpchain", "rows[?a %s b %s c]" % (o1, o2), cdoc3)
+    add("cmpchain", "rows[*].[a %s b %s c]" % (o1, o2), cdoc3)
+    add("cmpchain", "one %s two && two %s one || t %s f" % (o1, o2, o1), cdoc3)
+# ---------------------------------------------------------------- absent
+# filter predicates `field OP literal` over arrays that mix objects with the key, with an explicit null, without the key, and
+# elements that are not objects at all: a missing field is null, and null != x / null == null hold
+adoc2 = {"rows": [{"id": 1, "k": 1}, {"id": 2, "k": 2}, {"id": 3, "k": None}, {"id": 4}, 7, "x", None, [1], False, 0, {}], "xs": [[1, 2], {"a": 1, "b": 2}, "s", {"a": 3, "b": 3}, {}]}
+for op in OPS:
+    for lit in ["`1`", "`null`", "'x'", "`2`", "`false`", "`0`", "zz", "id"]:
+        for sh in ["rows[?k %s %s]", "rows[?%s %s k]", "rows[?k %s %s].id", "rows[?@.k %s %s]", "rows[?k %s %s] | [0]", "rows[?!(k %s %s)]", "rows[?k %s %s || id]", "rows[*].[k %s %s]"]:
+            t = sh % ((lit, op) if sh.startswith("rows[?%s") else (op, lit))
+            add("absent", t, adoc2)
+    add("absent", "xs[?a %s b]" % op, adoc2)
+    add("absent", "xs[?a %s b] | [0]" % op, adoc2)
+# ---------------------------------------------------------------- litpost
+# a literal as the RIGHT operand of a comparator (and of || / &&) followed by every postfix operator: the operator belongs to the literal
+ldoc2 = {"a": 7, "b": [7, 8], "s": "xyz", "c": None, "rows": [{"v": 7, "n": "seven"}, {"v": 8, "n": "eight"}]}
+lits2 = ["`[7, 8]`", "`{\"k\": 7}`", "`[[7], [8]]`", "`[{\"k\":7},{\"k\":8}]`", "'xyz'", "`7`"]
+posts2 = ["[0]", "[1]", "[-1]", ".k", "[]", "[*].k", "[?@ < `9`]", "[:1]", ".*", ".[k]", ".{x: k}", "[*]", "[0][0]", "[] | [0]"]
+for op in OPS + ["||", "&&"]:
+    for l, q in itertools.product(lits2, posts2):
+        add("litpost", "a %s %s%s" % (op, l, q), ldoc2)
+    for l, q in itertools.product(lits2[:4], posts2[:6]):
+        add("litpost", "c || a %s %s%s" % (op, l, q), ldoc2)
+        add("litpost", "rows[?v %s %s%s].n" % (op, l, q), ldoc2)
+        add("litpost", "b %s %s%s" % (op, l, q), ldoc2)
+# ---------------------------------------------------------------- notgroup
+# a parenthesised group as the (start of the) operand of every prefix / infix context, followed by every step: `!` binds tighter than
+# `.`, `[?`, `[]` and looser than `[n]`, `[*]`
+gdoc = {"a": {"b": False, "k": [1]}, "z": None, "list": [{"k": 1, "b": True}, {"k": None}, [2]], "rows": [{"x": {"on": False}, "y": None, "n": "first"}, {"x": None, "y": {"on": True}, "n": "second"}]}
+groups2 = ["(a)", "(a || z)", "(list)", "(rows[0].x)", "((a))", "(z || list)"]
+steps = [".b", ".*", ".{x: b}", ".[b]", "[?k]", "[]", "[0]", "[*].k", "[:1]", " | b", ".b == `null`", "[-1]", ".k[0]", "[?k].b"]
+ctxs = ["!%s", "!!%s", "z || %s", "z == %s", "%s == z", "[%s]", "{k: %s}", "z | %s", "not_null(%s)", "!%s || 'fallback'", "`1` < %s", "a && %s", "!%s == `null`"]
+for c, g, st in itertools.product(ctxs, groups2, steps):
+    add("notgroup", c % (g + st), gdoc)
+for t in ["rows[*].[!(x).on]", "rows[?!(x || y).on].n", "rows[?!(x).on].n", "rows[*].!(x).on", "rows[?(x || y).on].n", "sort_by(rows, &!(x).on)"]:
+    add("notgroup", t, gdoc)
+# ---------------------------------------------------------------- selfnest
+# a call as an argument of a call of the SAME function, with zero, one and two arguments: nothing is spliced, every call is checked by itself
+BUILTINS = ["abs", "avg", "ceil", "contains", "ends_with", "floor", "join", "keys", "length", "map", "max", "max_by", "merge", "min", "min_by", "not_null", "reverse", "sort",
+            "sort_by", "starts_with", "sum", "to_array", "to_number", "to_string", "type", "values"]
+sndoc = {"a": {}, "b": {"x": 1}, "n": [1, 2], "s": "ab"}
+for f in BUILTINS:
+    for sh in ["%s(%s())", "%s(%s(), @)", "%s(@, %s())", "%s(%s(@))", "%s(%s(@), @)", "%s(@, %s(@))", "%s(a, %s(b, %s()))", "%s(%s(a, b), a)", "%s(n, %s(n))", "%s(%s(s), s)"]:
+        add("selfnest", sh.replace("%s", f), sndoc)
+# ---------------------------------------------------------------- keyorder
+# two failing members of one multi-select hash with keys NOT in ascending order (the one written first is reported), also lists
+for x, y in itertools.product(fails[:6], fails[:6]):
+    for sh in ["{y: %s, x: %s}", "{b: %s, a: %s, c: n}", "{zeta: %s, alpha: %s}", '{"é": %s, B: %s}', "{a: %s, B: %s}.x", "a[*].{n: %s, first: %s}", "n | {y: %s, x: %s}", "{k: {y: %s, x: %s}}",
+               "{b: n, a: %s, B: %s}"]:
+        add2("keyorder", sh, x, y, edoc, (True, True))
+for x in fails:
+    for y in oks:
+        add2("keyorder", "{y: %s, x: %s}", x, y, edoc, (True, False))
+        add2("keyorder", "{y: %s, x: %s}", y, x, edoc, (False, True))
+# ---------------------------------------------------------------- msidx
+# a multi-select list / hash that is indexed or stepped into at once, with indexes beyond its arity in both directions; members not
+# selected are still evaluated (their failures are reported)
+xdoc = {"a": 1, "b": 2, "c": [3, 4]}
+for L in ["[a]", "[a, b]", "[a, b, c]", "[a, nosuch(@)]", "[nosuch(@), a]", "[c, c][1]", "[@, `0`, 'x']"]:
+    for i in [-5, -4, -3, -2, -1, 0, 1, 2, 3, 4, -2147483648, 2147483647, -2147483647]:
+        add("msidx", "%s[%d]" % (L, i), xdoc)
+        add("msidx", "%s[%d] || 'none'" % (L, i), xdoc)
+    for sl in ["[-9:]", "[:-9]", "[5:]", "[::-1]", "[-1:-9:-1]"]:
+        add("msidx", L + sl, xdoc)
+for t in ["(c | [@, `0`, 'x'][-7]) == `null`", "c[?[@, `1`][-3] == `null`]", "{a: a, b: b}.c", "{a: a, b: nosuch(@)}.a", "[a, b] | [-3]", "z.[a, b][-3]", "c.[@, @][-3]"]:
+    add("msidx", t, xdoc)
+# ---------------------------------------------------------------- foldlit
+# && / || with a literal on either side: the result is an OPERAND's value (the left one when it decides), and the other side's failure is
+# reported when it is evaluated
+fdoc = {"n": None, "f": False, "s": "", "l": [], "o": {}, "t": True, "k": 7, "rows": [{"a": ""}, {"a": []}, {"a": 3}, {}]}
+flits = ["`false`", "`null`", "''", "`[]`", "`{}`", "`0`", "`true`", "'a'", "`[0]`"]
+fxs = ["missing", "l", "s", "k", "t", "f", "n", "o", "length(k)", "nosuch(@)", "l[0]", "rows[0].a"]
+for L, X in itertools.product(flits, fxs):
+    for sh in ["%s && %s", "%s || %s"]:
+        add("foldlit", sh % (X, L), fdoc)
+        add("foldlit", sh % (L, X), fdoc)
+        add("foldlit", "[" + sh % (X, L) + ", k]", fdoc)
+    add("foldlit", "rows[*].[a && %s]" % L, fdoc)
+    add("foldlit", "rows[*].[a || %s]" % L, fdoc)
+    add("foldlit", "rows[?a && %s]" % L, fdoc)
+    add("foldlit", "!(%s && %s)" % (X, L), fdoc)
+# ---------------------------------------------------------------- digitkeys
+# member names made of digits (quoted identifiers): a name never indexes an array
+kdoc2 = {"a": ["x", "y", "z"], "o": {"1": "one", "0": "zero", "01": "lead", "-1": "neg"}, "b": {"c": [0, 1, {"d": "deep"}]}, "rows": list(range(12)), "0": "top"}
+for t in ['a."1"', '"0"', 'b.c."2".d', 'rows."10"', 'a."-1"', 'a."01"', 'o."1"', 'o."01"', 'o."-1"', 'a."0"', '[a, o][*]."1"', 'a | "1"', '@."0"', 'rows."0"', 'a."1" || o."1"', '{x: a."2"}',
+          'a[?"0"]', 'values(o)."0"', 'b.c[2].d', 'b.c."2"', '*."1"', 'a.*', '"a"."1"', '"rows"."11"', 'o."0" == a."0"']:
+    add("digitkeys", t, kdoc2)
+    add("digitkeys", t, ["only", {"0": "inner"}])
+
+# ---------------------------------------------------------------- bsruns
+# runs of 0..7 backslashes directly before a closing or an escaped delimiter in all three quoted forms, alone and inside larger
+# expressions: sentences and non-sentences alike (the language judge decides which is which from the lexer model)
+rdoc = {"a" + "\\" * k: k for k in range(5)}
+rdoc.update({"foo": [{"k\\\"": "v\\'"}, {"k": "v"}], "a": "a"})
+for n in range(8):
+    bs = "\\" * n
+    for t in ["'a%s'", "'a%s'b'", "'%s'", '"a%s"', '"a%s"b"', '`"a%s"`', '`"a%s`b"`', '`"a%s"b"`', "['a%s', 'z']", "a == 'a%s'", "foo[?\"k%s\"\" == 'v%s'']", "{\"x%s\"y\": 'z%s'w'}",
+              "length('%s') == `1`", "'%s' | length(@)", "[`\"%s\"`]", "\"a%s\".b", "'a%sb'", '"a%sb"']:
+        add("bsruns", t.replace("%s", bs), rdoc)
+# ---------------------------------------------------------------- byorder
+# by-functions: the key of element i is evaluated and type-checked before element i+1 is looked at -- an earlier element with a key of the
+# wrong type and a later element whose key expression fails (slice / unknown function / arity / type), in both orders and at every position
+bdoc2 = {"items": [{"k": False, "a": []}, {"k": [1], "a": [1, "x"]}], "three": [{"k": 1, "a": [1]}, {"k": "s", "a": ["s"]}, {"k": [1], "a": [1, "x"]}],
+         "ok": [{"k": 2}, {"k": 1}], "late": [{"k": 1}, {"k": 2}, {"k": [0]}], "first": [{"k": [0]}, {"k": 2}, {"k": "s"}]}
+keyexprs = ["(k && k[::0])", "(k && nosuch(k))", "(k && abs(k, k))", "max(a)", "k[::0]", "(k[0] && k[::0]) || k", "(k[0] && nosuch(@)) || k", "(k[0] && abs()) || k", "k", "k[0]", "abs(k)",
+            "length(k)", "not_null(k[0], k)", "to_number(k) || nosuch(@)"]
+for f in ("sort_by", "max_by", "min_by"):
+    for arr in ("items", "three", "ok", "late", "first", "reverse(items)", "reverse(three)", "reverse(late)", "reverse(first)", "three[1:]", "[three[0], three[2], three[1]]"):
+        for ke in keyexprs:
+            add("byorder", "%s(%s, &%s)" % (f, arr, ke), bdoc2)
+for arr in ("items", "three", "late", "first"):
+    for ke in keyexprs:
+        add("byorder", "map(&%s, %s)" % (ke, arr), bdoc2)
+        add("byorder", "%s[*].%s" % (arr, ke.strip("()") if ke.startswith("(k[0]") else ke), bdoc2) if not ke.startswith("(") else None
+R6X = ["bsruns"]
 
 out = os.path.join(VERIF, "spec", "gen", "eval_pools.ndjson")
 with open(out, "w") as f:
